@@ -65,7 +65,9 @@ func GenText(o TextOpts) *rapid.Generator[string] {
 			}
 		}
 		if o.NoCDEnd && strings.Contains(s, "]]>") {
-			s = strings.ReplaceAll(s, "]]>", "]]")
+			for strings.Contains(s, "]]>") {
+				s = strings.ReplaceAll(s, "]]>", "]]")
+			}
 			if o.OnExclude != nil {
 				o.OnExclude("cdend")
 			}
